@@ -18,7 +18,11 @@ func parseCacheOps(s string) (ops []cacheOp) {
 		switch o[0] {
 		case 's':
 			f := strings.Split(o[1:], ":")
-			ops = append(ops, cacheOp{'s', UnH(f[0]), UnH(f[1])})
+			if f[1] == "N" { // a nil value (as opposed to an empty one)
+				ops = append(ops, cacheOp{'S', UnH(f[0]), nil})
+			} else {
+				ops = append(ops, cacheOp{'s', UnH(f[0]), UnH(f[1])})
+			}
 		case 'g', 'd':
 			ops = append(ops, cacheOp{o[0], UnH(o[1:]), nil})
 		default:
@@ -62,12 +66,19 @@ func execCache(args []string) string {
 			switch o.kind {
 			case 's':
 				out = append(out, "S"+b2s(c.Set(fresh(o.k), fresh(o.v))))
+			case 'S':
+				out = append(out, "S"+b2s(c.Set(fresh(o.k), nil)))
 			case 'g':
+				// a live entry may hold a nil value: whether the key was found is read off the hit counter
+				before := c.Stats().Hit
 				v := c.Get(fresh(o.k))
-				if v == nil {
-					out = append(out, "Gnil")
-				} else {
+				switch hit := c.Stats().Hit > before; {
+				case hit:
 					out = append(out, "G"+H(v))
+				case v == nil:
+					out = append(out, "Gnil")
+				default:
+					out = append(out, "Gmiss-with-value:"+H(v))
 				}
 			case 'd':
 				c.Del(fresh(o.k))
@@ -97,7 +108,11 @@ func genCacheOps(g *G, n int, keys, vals [][]byte) string {
 		k := H(keys[g.Rnd.IntN(len(keys))])
 		switch g.Rnd.IntN(12) {
 		case 0, 1, 2, 3, 4:
-			ops = append(ops, "s"+k+":"+H(vals[g.Rnd.IntN(len(vals))]))
+			if g.Rnd.IntN(9) == 0 {
+				ops = append(ops, "s"+k+":N")
+			} else {
+				ops = append(ops, "s"+k+":"+H(vals[g.Rnd.IntN(len(vals))]))
+			}
 		case 5, 6, 7:
 			ops = append(ops, "g"+k)
 		case 8:
